@@ -471,7 +471,17 @@ type stubAuth struct{ w *world }
 func (s *stubAuth) Authenticate(ctx context.Context, m auth.ApplicationContext, tr auth.TransportContext) (auth.Principal, error) {
 	for _, r := range s.w.authTab {
 		if r.user == string(m.Username) && r.pass == string(m.Password) {
-			return auth.Principal{ID: uuid.New().String(), MountPoint: r.mount}, nil
+			id := uuid.New().String()
+			if s.w.c.knob("devids", 0) == 1 {
+				// a provider that names sessions after devices
+				switch string(m.ClientID) {
+				case "p0":
+					id = "dev1"
+				case "p1":
+					id = "dev12"
+				}
+			}
+			return auth.Principal{ID: id, MountPoint: r.mount}, nil
 		}
 	}
 	return auth.Principal{}, errors.New("authentication failed")
